@@ -441,6 +441,24 @@ def record_payloads():
     idat = chunk(b"IDAT", zlib.compress(b"\x00\x00"))
     iend = chunk(b"IEND", b"")
     tail = b"\x00" * 16
+    # WELL-FORMED picture records (OfficeArt BLIP: 8-byte header, 16-byte UID + tag, then the image), each alone, twice and three times
+    # in a row byte for byte, and next to a different one: what a de-duplicating / caching branch of a record walker is reached by
+    # (a writer that stores one picture per use instead of one per distinct picture)
+    png = PNG_SIG + ihdr + idat + iend
+    jpeg = (b"\xff\xd8\xff\xe0" + struct.pack(">H", 16) + b"JFIF\x00\x01\x01\x00\x00\x01\x00\x01\x00\x00" +
+            b"\xff\xc0" + struct.pack(">HBHHB", 11, 8, 1, 1, 1) + b"\x01\x11\x00" + b"\xff\xda" + struct.pack(">H", 8) + b"\x01\x01\x00\x00\x3f\x00" + b"\x00\xff\xd9")
+    dib = struct.pack("<IiiHHIIiiII", 40, 1, 1, 1, 24, 0, 4, 0, 0, 0, 0) + b"\x00\x00\x00\x00"
+
+    def blip(verinst, typ, image, uid_bytes=17):
+        body = bytes(range(16)) * (uid_bytes // 16) + b"\xff" + image
+        return struct.pack("<HHI", verinst, typ, len(body)) + body
+    blips = [("png", blip(0x6E00, 0xF01E, png)), ("jpeg", blip(0x46A0, 0xF01D, jpeg)), ("dib", blip(0x7A80, 0xF01F, dib)),
+             ("png-two-uids", blip(0x6E10, 0xF01E, png, 33)), ("emf", blip(0x3D40, 0xF01A, b"\x01\x00\x00\x00" + b"\x00" * 84))]
+    for lab, rec in blips:
+        yield f"blip:{lab}", rec
+        yield f"blip:{lab}-twice-identical", rec + rec
+        yield f"blip:{lab}-three-times-identical", rec + rec + rec
+    yield "blip:png-jpeg-png", blips[0][1] + blips[1][1] + blips[0][1]
     for v in BOUNDARY32:
         for typ in (b"IHDR", b"IDAT", b"tEXt"):
             yield f"png:first-chunk-{typ.decode()}-length-{v:08x}", PNG_SIG + struct.pack(">I", v) + typ + b"\x00" * 13 + b"\x00\x00\x00\x00" + iend + tail
@@ -510,12 +528,16 @@ def ole_record_cases(repo, key, payloads=None):
             # after the other on 4-byte boundaries: a scanning walker meets each of them, the file count stays small
             per = 1 if len(payloads) <= 4 else 12
             packs = []
-            for g in range(0, len(payloads), per):
-                grp = payloads[g:g + per]
+            groups = [payloads[g:g + per] for g in range(0, len(payloads), per)]
+            if per > 1:          # well-formed repeated records: one kind per file (small fixtures have room for it, and a finding names the kind)
+                wf = [x for x in payloads if x[0].startswith("blip:")]
+                rest = [x for x in payloads if not x[0].startswith("blip:")]
+                groups = [wf[g:g + 3] for g in range(0, len(wf), 3)] + [rest[g:g + per] for g in range(0, len(rest), per)]
+            for grp in groups:
                 blob = b""
                 for (_l, pl) in grp:
                     blob += pl + b"\x00" * ((-len(pl)) % 4 + 4)
-                lab = grp[0][0] if per == 1 else f"{grp[0][0]} .. {grp[-1][0]} ({len(grp)} records)"
+                lab = grp[0][0] if len(grp) == 1 else f"{grp[0][0]} .. {grp[-1][0]} ({len(grp)} records)"
                 packs.append((lab, blob))
             for where in ("end", "middle", "start"):            # "start": a walker that begins at offset 0 is in step with the records
                 for label, pl in packs:
